@@ -63,6 +63,8 @@ def expressions(case, world=None):
             out.append(['matrix', g.leaf(d)])
         if rng.random() < 0.08:
             out.append(['deriv', rng.randrange(len(ctx['vars'])), rng.randrange(len(ctx['vars']))])
+        if rng.random() < 0.05 and len(ctx['vars']) >= 2:
+            out.append(['derivn', rng.randrange(len(ctx['vars'])), rng.randrange(len(ctx['vars'])), rng.choice([2, 3])])
         if rng.random() < 0.05:
             out.append(['pow', g.leaf(d), ['add', ['qty', '2', [[0, 'dimensionless', '1']]],
                                            ['qty', '3', [[0, 'dimensionless', '1']]]]])
